@@ -1,6 +1,6 @@
 SPECIFICATION Spec
 CONSTANTS
-  Kinds <- K_cgt
+  Kinds <- K_cg
   Tuples <- T2
   Amts = {1, 2}
   GVals = {1, 2}
